@@ -20,6 +20,9 @@ Path summaries of the Data strategies in the linear normal form:
  (e) Data.pack emits value + delimiter_to_be_included (value first), and the constructor
      sets the latter to the marker iff it is bytes and excluded.
 Which option values select the windowed path ("0 means unbounded") is not decided.
+
+Round 4: on every compile path the search-window attribute ends up holding the configured value
+itself (unset / 0: unbounded, n: the next n bytes).
 """
 import ast
 
